@@ -203,30 +203,63 @@ func (rr *DefaultRelationsResolver) SortStates(states S) {
 
 	rr.sortRequire(states)
 
-	// sort by After
-	// TODO optimize / cache (but not in debug, to have steps)
-	sort.SliceStable(states, func(i, j int) bool {
-		name1 := states[i]
-		name2 := states[j]
-		state1 := m.schema[name1]
-		state2 := m.schema[name2]
-
-		// forward relations
-		if slices.Contains(state1.After, name2) {
-			if t.isLogSteps() {
-				t.addSteps(newStep(name2, name1, StepRelation, RelationAfter))
+	// sort by After, keeping Require: a stable topological order, in which
+	// a state comes after all the listed states it is After or Requires
+	// (a pairwise comparator isn't transitive, so sort.SliceStable can't
+	// guarantee that for states separated by unrelated ones)
+	n := len(states)
+	if n < 2 {
+		return
+	}
+	if t != nil && t.Machine != nil && t.isLogSteps() {
+		for _, name1 := range states {
+			for _, name2 := range m.schema[name1].After {
+				if slices.Contains(states, name2) {
+					t.addSteps(newStep(name2, name1, StepRelation, RelationAfter))
+				}
 			}
-			return false
-
-		} else if slices.Contains(state2.After, name1) {
-			if t.isLogSteps() {
-				t.addSteps(newStep(name1, name2, StepRelation, RelationAfter))
-			}
-			return true
 		}
-
-		return false
-	})
+	}
+	sorted := make(S, 0, n)
+	placed := make([]bool, n)
+	for len(sorted) < n {
+		progress := false
+		for i, name := range states {
+			if placed[i] {
+				continue
+			}
+			state := m.schema[name]
+			waits := false
+			for j, other := range states {
+				if i == j || placed[j] {
+					continue
+				}
+				if slices.Contains(state.After, other) ||
+					slices.Contains(state.Require, other) {
+					waits = true
+					break
+				}
+			}
+			if waits {
+				continue
+			}
+			// restart from the beginning to keep the order stable
+			placed[i] = true
+			sorted = append(sorted, name)
+			progress = true
+			break
+		}
+		if !progress {
+			// cycle, keep the remaining states in the current order
+			for i, name := range states {
+				if !placed[i] {
+					placed[i] = true
+					sorted = append(sorted, name)
+				}
+			}
+		}
+	}
+	copy(states, sorted)
 }
 
 // sortRequire sorts the states by Require relations.
